@@ -148,6 +148,30 @@ def native_backedges():
     return out, loop_poll, anypoll_cg
 
 
+def gate_sites():
+    """Every call of `with_locked_env(` (sync variant) and whether a heap-lock guard taken in a safepoint is bound
+    to a NAMED variable (kept until the end of the scope) earlier in the same function."""
+    out = []
+    for rel in ("steel_vm/vm.rs", "steel_vm/vm/jit.rs", "steel_vm/engine.rs"):
+        src = strip_comments(open(os.path.join(REPO, rel)).read())
+        fns = [(m.start(), m.group(1)) for m in FN.finditer(src)]
+        for m in re.finditer(r"\.with_locked_env\(\s*(?:move\s*)?\|\s*_?[a-z]*\s*,\s*[a-z_]+\s*\|", src):
+            start, name = 0, "?"
+            for pos, n in fns:
+                if pos < m.start():
+                    start, name = pos, n
+                else:
+                    break
+            if name == "with_locked_env":
+                continue
+            before = src[start:m.start()]
+            kept = bool(re.search(r"let\s+(?:mut\s+)?(?!_\s*=)[a-z_][a-z_0-9]*\s*=[^;]*?enter_safepoint\(\s*\|\s*thread\s*\|\s*thread\.heap\.lock_arc\(\)\s*\)", before, re.S))
+            dropped = bool(re.search(r"let\s+_\s*=[^;]*?enter_safepoint\(\s*\|\s*thread\s*\|\s*thread\.heap\.lock_arc\(\)\s*\)", before, re.S))
+            out.append({"file": rel, "fn": name, "line": src.count("\n", 0, m.start()) + 1,
+                        "guard_kept": kept and not dropped})
+    return out
+
+
 def lean_str(s):
     return '"' + s.replace("\\", "\\\\").replace('"', '\\"') + '"'
 
@@ -156,6 +180,7 @@ def main():
     try:
         rows = extract()
         edges, loop_poll, anypoll_cg = native_backedges()
+        gates = gate_sites()
     except Exception as e:  # noqa
         print(json.dumps({"error": str(e)}))
         return 2
@@ -173,6 +198,14 @@ def main():
     g += ["  ⟨%s, %s, %d, %s, %s⟩," % (lean_str(r["file"]), lean_str(r["fn"]), r["line"],
                                         "true" if r["kind"] == "BoxedFunction" else "false",
                                         "true" if r["publishes"] else "false") for r in rows]
+    g[-1] = g[-1].rstrip(",")
+    g += ["]", "",
+          "/-- A call of `with_locked_env` and whether the heap-lock guard taken before it is kept (bound to a named",
+          "variable) until it returns. -/",
+          "structure GateSite where", "  file : String", "  fn : String", "  line : Nat", "  guardKept : Bool",
+          "deriving DecidableEq, Repr", "", "def gateSites : List GateSite := ["]
+    g += ["  ⟨%s, %s, %d, %s⟩," % (lean_str(x["file"]), lean_str(x["fn"]), x["line"],
+                                   "true" if x["guard_kept"] else "false") for x in gates]
     g[-1] = g[-1].rstrip(",")
     g += ["]", "", "end SteelVerif.C16", ""]
     os.makedirs(os.path.join(VERIF, "lean/SteelVerif/C16"), exist_ok=True)
@@ -195,7 +228,7 @@ def main():
           "def cgenMentionsPoll : Bool := %s" % ("true" if anypoll_cg else "false"), "",
           "end SteelVerif.C17", ""]
     open(os.path.join(VERIF, "lean/SteelVerif/C17/GenPollsTable.lean"), "w").write("\n".join(p))
-    print(json.dumps({"call_arms": rows, "native_edges": edges, "dispatch_loop_polls": loop_poll,
+    print(json.dumps({"gate_sites": gates, "call_arms": rows, "native_edges": edges, "dispatch_loop_polls": loop_poll,
                       "cgen_mentions_poll": anypoll_cg}, indent=1))
     return 0
 
